@@ -276,6 +276,12 @@ def verify_tables(chk, F, rule, config):
         if v == ('param', 0, 1):
             w = p.heap.get((('local', 0, 1), (('f', 'verify_in_drop'),)))
             return 'self[verify_in_drop=%s]' % (show(w) if w is not None else 'unchanged')
+        if v[0] == 'overlay' and v[1] == ('param', 0, 1):
+            ov = dict(v[2])
+            others = [k for k in ov if k != (('f', 'verify_in_drop'),)]
+            if not others:
+                return 'self[verify_in_drop=%s]' % show(ov.get((('f', 'verify_in_drop'),), ('unk', 'unchanged')))
+            return 'self-modified:%s' % show(v)
         if v[0] == 'agg':
             d = dict(v[4])
             return 'agg[verify_in_drop=%s]' % show(d.get('verify_in_drop'))
